@@ -66,6 +66,7 @@ class SerialDevice:
         self.writes = []              # (seq#, t_us, unit, bytes)
         self.hostbuf = bytearray()
         self.observed = []            # (arrival us, bits, value) of foreign forward frames
+        self.answer_arrivals = {}     # backward-frame value -> arrival time at the host (us)
         self.mute = False             # gateway stopped talking (fault)
 
     def attach(self, proto, tr):
@@ -73,6 +74,7 @@ class SerialDevice:
         self.transport = tr
 
     def host_write(self, data):
+        self.world.seam_call()
         unit = self.world.unit.get()
         seqno = self.world.log.add(self.loop.time(), "write", self.name,
                                    (unit, data.hex()))
@@ -275,7 +277,7 @@ class LubaGW(SerialDevice):
             return
         rec["answer_arrival_us"] = arrival
         if outcome[0] == "value":
-            self.event(2, 8, [outcome[1]], arrival, "bf")
+            self.answer_arrivals[outcome[1]] = self.event(2, 8, [outcome[1]], arrival, "bf")
         else:
             self.event(2, 63, [outcome[1] if len(outcome) > 1 else 0], arrival, "bferr")
 
@@ -289,8 +291,8 @@ class LubaGW(SerialDevice):
         if error:
             self.event(2, 63, [value], at_us + 2000, "obs-bferr")
         else:
-            self.event(2, 8, [value], at_us + 2000 +
-                       self.lat.draw(self.name, "ob", self.nmsg), "obs-bf")
+            self.answer_arrivals[value] = self.event(2, 8, [value], at_us + 2000 +
+                                                     self.lat.draw(self.name, "ob", self.nmsg), "obs-bf")
 
 
 def sci_frame(b0, d2, d1, d0):
@@ -399,8 +401,8 @@ class SciGW(SerialDevice):
         rec["answer_arrival_us"] = arrival
         self.nmsg += 1
         if outcome[0] == "value":
-            self.send_bytes(sci_frame((self.device_id << 4) | 2, 0, 0, outcome[1]),
-                            arrival, ("bf", self.nmsg))
+            self.answer_arrivals[outcome[1]] = self.send_bytes(
+                sci_frame((self.device_id << 4) | 2, 0, 0, outcome[1]), arrival, ("bf", self.nmsg))
         else:
             # DALI receive error: error frame, code 7, error type 3
             self.send_bytes(sci_frame((self.device_id << 4) | 7, 0, 0, 3),
@@ -421,5 +423,5 @@ class SciGW(SerialDevice):
             self.send_bytes(sci_frame((self.device_id << 4) | 7, 0, 0, 3),
                             at_us + 1500, ("obs-err", self.nmsg))
         else:
-            self.send_bytes(sci_frame((self.device_id << 4) | 2, 0, 0, value),
-                            at_us + 1500, ("obs-bf", self.nmsg))
+            self.answer_arrivals[value] = self.send_bytes(
+                sci_frame((self.device_id << 4) | 2, 0, 0, value), at_us + 1500, ("obs-bf", self.nmsg))
